@@ -76,9 +76,53 @@ def has_bare_constructor(expr):
     return False
 
 
+COLD = [("net.ipaddress", "'1.2.3.4'"), ("net.ipnetwork", "'10.0.0.0/8'"), ("net.IPAddress", "'1.2.3.4'"), ("net.IPNetwork", "'10.0.0.0/8'"),
+        ("net.ipv4.Address", "'1.2.3.4'"), ("net.ipv4.Subnet", "'10.0.0.0/8'"), ("net.tcp.Port", "80"), ("net.udp.Port", "53")]
+COLD_CODE = """
+import sys, warnings
+warnings.simplefilter('ignore')
+from flow.record import RecordDescriptor
+from flow.record.selector import CompiledSelector, Selector
+rec = RecordDescriptor('cold/rec', [('string', 's'), ('varint', 'n')])(s='1.2.3.4', n=80)
+cls = CompiledSelector if sys.argv[1] == 'compiled' else Selector
+for expr in sys.argv[2:]:
+    try:
+        print('value', bool(cls(expr).match(rec)))
+    except Exception as e:
+        print('raise', type(e).__name__)
+"""
+
+
+def run_cold(case):
+    """A dotted field-type constructor as the FIRST thing an interpreter evaluates, with one engine only: the result may not
+    depend on what another engine, another selector or a descriptor happened to import earlier in the process."""
+    import subprocess
+    import sys
+
+    h = jhash(case)
+    name, arg = case["cold"]
+    exprs = ["str(%s(%s)) == '%s'" % (name, arg, arg.strip("'"))]
+    viol = []
+    outs = []
+    res = {}
+    for engine in ("compiled", "interpreted"):
+        p = subprocess.run([sys.executable, "-W", "ignore", "-c", COLD_CODE, engine] + exprs, capture_output=True, text=True)
+        res[engine] = p.stdout.split("\n")[: len(exprs)] if p.returncode == 0 else ["crash " + p.stderr[-200:]] * len(exprs)
+    for i, expr in enumerate(exprs):
+        want = "value True"
+        for engine in ("compiled", "interpreted"):
+            got = res[engine][i].strip()
+            outs.append("cold:%s:%s" % (engine, got.split()[0] if got else "none"))
+            if got != want:
+                viol.append(("C07:%s:cold-process:%s:%s" % (engine, name, got.replace(" ", "-")[:40]), case, {"expr": expr, "fresh_interpreter_result": got, "expected": want}))
+    return {"ev": 2 * len(exprs), "h": h, "nt": True, "out": sorted(set(outs)), "viol": viol}
+
+
 def run_case(expr):
     from flow.record.selector import CompiledSelector, Selector
 
+    if isinstance(expr, dict) and "cold" in expr:
+        return run_cold(expr)
     if isinstance(expr, dict):
         expr = expr["expr"]
     h = jhash(expr)
@@ -166,6 +210,8 @@ def main(tier, seed, workers=None):
     seen = set()
 
     def progs():
+        for c in COLD:
+            yield {"cold": list(c)}
         for p in selgrammar.programs(tier):
             if p not in seen:
                 seen.add(p)
